@@ -19,6 +19,6 @@ LEVELS = {
  "C17": "proof",
  "C18": "proof",
  "C19": "other",
- "C20": "exploration"
+ "C20": "other"
 }
 EXPLAIN = {}
